@@ -442,12 +442,12 @@ theorem kKill_nine_si (jm : JM) (p : Nat) (s : State) (h : SI (some jm) s) (hj :
   have hq := squietW_kKill p 9 "" s
   have hpid := kKill_pres pidLeafW.toLeafK p 9 "" s h.pid
   have hnone := h.toNone.of_quietW hpid hq
-  refine ⟨hpid, hnone.fr, hnone.rd, hnone.uniq, hnone.reap, ?_⟩
+  refine ⟨hpid, hnone.fr, hnone.rd, hnone.uniq, hnone.reap, hnone.pos, hnone.wpar, ?_⟩
   intro jm' hjm
   cases hjm
   have hji := h.just jm rfl
   -- the kernel call, then the log entry
-  have hq1 := squiet_runK (fun k => k.kill p 9) (KGMono.kill p 9) (KNMono.kill p 9) (KStep.kill p 9) s
+  have hq1 := squiet_runK (fun k => k.kill p 9) (KGMono.kill p 9) (KNMono.kill p 9) (KStep.kill p 9) (KDMono.kill p 9) s
   have hj1 := hji.mono hq1.ext.toExt0 hq1.nn
   have hpre1 : JPre jm.X (runK (fun k => k.kill p 9) s).2 p := hj.mono hq1.ext.toExt0
   unfold kKill
@@ -462,12 +462,12 @@ theorem kKill_nine_si (jm : JM) (p : Nat) (s : State) (h : SI (some jm) s) (hj :
       simp only [Obs.isRep, Obs.isEv, Bool.or_false, Bool.not_eq_true] at hb
       exact hb
     have e : Ext0 s1 { s1 with log := s1.log ++ [Obs.sig p 9 st ""] } :=
-      ⟨fun o ho => List.mem_append_left _ ho, fun hh => hh, fun q hq => hq, fun u hn hh => hh, fun u q _ hn => hn,
+      Ext0.ofK ⟨fun o ho => List.mem_append_left _ ho, fun hh => hh, fun q hq => hq, fun u hn hh => hh, fun u q _ hn => hn,
        fun q hq => hq, fun q st' hr => by
          rcases List.mem_append.mp hr with hr | hr
          · exact Or.inl hr
          · simp at hr,
-       fun q hq => hq⟩
+       fun q hq => hq⟩ rfl (fun q hq => hq)
     have hjust : Justified jm.X s1 s1.log p := by
       rcases hpre1 with hbl | hx | hs | hh | hn
       · rw [hnb] at hbl; cases hbl
@@ -475,7 +475,7 @@ theorem kKill_nine_si (jm : JM) (p : Nat) (s : State) (h : SI (some jm) s) (hj :
       · exact Or.inl hs
       · exact Or.inr (Or.inr (Or.inl hh))
       · exact Or.inr (Or.inr (Or.inr hn))
-    exact ⟨LogJ.snoc hj1.log e p st rfl (hjust.mono e), hj1.nine, hj1.pos, hj1.npos⟩
+    exact ⟨LogJ.snoc hj1.log e p st rfl (hjust.mono e), hj1.nine⟩
 
 /-- `kKill` in a justifying mode: anything but a SIGKILL through `send_signal` is free -/
 theorem kKill_si_j (jm : JM) (p sg : Nat) (s : State) (h : SI (some jm) s) (hj : sg = 9 → JPre jm.X s p) :
@@ -564,7 +564,7 @@ theorem sendSignalChild_si_j (jm : JM) (p c sg : Nat) (s : State) (h : SI (some 
       simp only [Option.some.injEq] at h0
       -- `p` has a `Process` object, hence is a pid of the table, hence positive
       have hp1 : HasObj (kChildren p false s).2 p := hq1.ext.obj p ho
-      have := (h1.just jm rfl).pos p (h1.pid.objInK p hp1)
+      have := h1.pos.2 p (h1.pid.objInK p hp1)
       omega
     · erw [if_neg hc]
       exact h1
